@@ -220,6 +220,8 @@ class LoopAdapter:
                 else:
                     raise AssertionError(item)
             fields = (loop.running, getattr(loop.current_world_handle, 'name', 'none'), tag(loop.current_world))
+            # which of the world instances ever loaded hold their events (also the ones no handle caches any more)
+            env.muted = tuple(not w.dispatch_enabled for w in env.keep)
             seg = self._last_segment(env)
             return seg, ret, fields, env
         finally:
@@ -259,7 +261,7 @@ class LoopAdapter:
             heard = any(x[0] == 'ev' and x[2] == 'on_switch_in' and x[1] == fields[2] for x in seg)
             if not heard:
                 self.d16 = getattr(self, 'd16', 0) + 1
-        return {'ret': ret, 'log': self._strip(seg), 'loop': fields}
+        return {'ret': ret, 'log': self._strip(seg), 'loop': fields, 'muted': env.muted}
 
     @staticmethod
     def _strip(seg):
@@ -274,6 +276,13 @@ class LoopAdapter:
 
     def expect(self, name, args, pre, post):
         exp = {'ret': post['ret'], 'log': self._strip(post['log'])}
+        n = post['nextInst'] - 1
+        en = post['en']
+        if post['ret'] in ('ok', 'switched', 'returned') and name != 'Start':
+            # every instance loaded so far: running one enabled, the ones that were left (discarded or not) muted
+            exp['muted'] = tuple(not en[i] for i in range(n))
+        else:
+            exp['muted'] = lambda o: True       # after an error the gates are not specified
         if post['ret'] == 'returned':
             exp['loop'] = (False, post['cur'], post['curInst'])
         elif post['ret'] == 'raised' or name == 'InitialSwitch':
